@@ -112,7 +112,11 @@ func (g *GroupMod) UnmarshalBinary(data []byte) error {
 
 	for n < int(g.Header.Length) {
 		bkt := new(Bucket)
-		bkt.UnmarshalBinary(data[n:])
+		// A bucket that fails to decode ends the message: carrying on at a recomputed offset re-decodes the
+		// same bytes again and again (quadratic work for a frame of overlapping hostile buckets).
+		if err := bkt.UnmarshalBinary(data[n:]); err != nil {
+			return err
+		}
 		// Len() is a 16-bit sum over the decoded actions: it is 0 when that sum wraps, and the loop must advance.
 		if bkt.Len() == 0 {
 			return errors.New("a bucket in the group-mod reports length 0")
